@@ -1,6 +1,8 @@
 package main
 
 import (
+	"sync/atomic"
+	"sync"
 	"log/slog"
 	"strings"
 	"time"
@@ -123,9 +125,46 @@ func dispatchEvents(w *tr.Writer) {
 	}
 }
 
+// c20Concurrent: a fresh process whose FIRST use of the library is eight goroutines displaying a frame of every
+// type at once (each with its own handler and messages, nothing shared by the caller) - "every type can be
+// displayed" also when two users of the library display at the same time.  One event per type.
+func c20Concurrent(w *tr.Writer) {
+	const G = 8
+	ok := make([]int32, 4096)
+	var wg sync.WaitGroup
+	start := time.Date(2023, 5, 10, 12, 0, 0, 0, time.UTC)
+	for g := 0; g < G; g++ {
+		wg.Add(1)
+		go func(g int) {
+			defer wg.Done()
+			h := handler.New(start, []slog.Level{slog.LevelDebug, slog.LevelInfo}[g%2])
+			for i := 0; i < 4096; i++ {
+				t := (i*[]int{1, 3, 5, 7, 9, 11, 13, 15}[g] + g*512) % 4096
+				if p := tr.Recover(func() {
+					m, _ := h.GetMessage(synthFrame(t))
+					tc := utils.GetTitleAndComment(t)
+					if m != nil && len(m.String()) > 0 && tc != nil && len(tc.Title) > 0 {
+						atomic.AddInt32(&ok[t], 1)
+					}
+				}); p != "" {
+					atomic.AddInt32(&ok[t], -100)
+				}
+			}
+		}(g)
+	}
+	wg.Wait()
+	for t := 0; t < 4096; t++ {
+		w.Emit(map[string]interface{}{"t": t, "conc": true, "ok": ok[t] == G})
+	}
+}
+
 func c20(args []string) {
 	w := tr.NewWriter(args[0])
 	defer w.Close()
+	if len(args) > 1 && args[1] == "concurrent" {
+		c20Concurrent(w)
+		return
+	}
 	defer dispatchEvents(w)
 	start := time.Date(2023, 5, 10, 12, 0, 0, 0, time.UTC)
 	for _, level := range []slog.Level{slog.LevelDebug} {
